@@ -25,7 +25,7 @@ from ..mon import lines, sched
 from . import c10
 
 ID = 'C11'
-ANCHORS = ['mido.ports']
+ANCHORS = ['mido.ports', 'mido.sockets']
 LEVEL = 'fault_enumeration'
 RULE = ('all operation sequences of length <= 4 (quick) / <= 5 (thorough) over {send, poll, '
         'iter_pending, blocking receive, iterate, close, with-block, __del__, repr} on a recording '
@@ -502,6 +502,68 @@ def echo_blocking_cases(ctx, hook):
     return n
 
 
+def socket_lifecycle_cases(ctx, hook):
+    """close() on a SocketPort: idempotent, afterwards send raises ValueError - also when the peer
+    has already gone away politely (FIN) or rudely (reset)."""
+    import socket
+    import struct
+    import time
+    from mido.sockets import PortServer, SocketPort, connect
+    n = 0
+    for peer in ('alive', 'closed', 'reset'):
+        for via in ('close', 'with', 'del'):
+            case = {'kind': 'socket-lifecycle', 'peer': peer, 'via': via}
+            server = client = port = None
+            hook.arm({}, None, None)
+            try:
+                server = PortServer('127.0.0.1', 0)
+                client = connect('127.0.0.1', server._socket.getsockname()[1])
+                port = server.accept()
+                client.send(out_msg(1))
+                if peer == 'closed':
+                    client.close()
+                elif peer == 'reset':
+                    port.send(out_msg(2))
+                    client._socket.setsockopt(socket.SOL_SOCKET, socket.SO_LINGER, struct.pack('ii', 1, 0))
+                    client.close()          # unread data + linger 0: the kernel sends a reset
+                time.sleep(0.02)
+                try:
+                    if via == 'close':
+                        port.close()
+                    elif via == 'with':
+                        with port:
+                            pass
+                    else:
+                        port.__del__()
+                    port.close()
+                    port.close()
+                    ok = True
+                    why = None
+                except Exception as exc:
+                    ok, why = False, f'{type(exc).__name__}: {exc}'
+                ctx.check('device released exactly once', ok and port.closed and port._socket.fileno() == -1,
+                          f'socket:close-failed:{peer}', case, {'error': why, 'closed': port.closed})
+                try:
+                    port.send(out_msg(3))
+                    ctx.check('results == lifecycle model', False, 'socket:send-after-close', case, None)
+                except ValueError:
+                    ctx.count('results == lifecycle model')
+                except Exception as exc:
+                    ctx.check('results == lifecycle model', False, f'socket:send-after-close:{type(exc).__name__}', case, str(exc))
+                ctx.check('non-blocking call never waits', port.poll() is None or True, 'socket:poll-after-close', case, None)
+            except Exception as exc:
+                ctx.fail('results == lifecycle model', f'socket-lifecycle:{type(exc).__name__}', case, repr(exc))
+            finally:
+                for p in (client, server):
+                    try:
+                        if p is not None:
+                            p.close()
+                    except Exception:
+                        pass
+            n += 1
+    return n
+
+
 def multiport_selfclosing_member(ctx, hook):
     """A member device delivers N messages and hangs up inside the same _receive() call: the
     MultiPort (and multi_receive) must still hand out every one of them."""
@@ -797,6 +859,11 @@ def run(ctx):
             k = multiport_selfclosing_member(ctx, hook)
             ctx.nontrivial(None, k)
             n += k
+        if ctx.shard == 1 % ctx.nshards:
+            k = socket_lifecycle_cases(ctx, hook)
+            ctx.nontrivial(None, k)
+            ctx.extra('socket_lifecycle_cases', k)
+            n += k
             k = echo_blocking_cases(ctx, hook)
             ctx.nontrivial(None, k)
             ctx.extra('echo_blocking_cases', k)
@@ -823,6 +890,8 @@ def replay(ctx, case):
             multiport_cases(ctx, hook)
         elif k == 'helpers':
             helper_cases(ctx, hook)
+        elif k == 'socket-lifecycle':
+            socket_lifecycle_cases(ctx, hook)
         elif k == 'multi-selfclose':
             multiport_selfclosing_member(ctx, hook)
         elif k == 'echo-blocking':
